@@ -16,9 +16,10 @@ cp $demo $out/
 cp $wt/seeded_out/meta.json $out/meta.agent.json 2>/dev/null
 run_demo() { (cd $wt && PYTHONPATH=$wt/src timeout 600 /venv/bin/python $([[ $demo == *test* ]] && echo "-m pytest -q -p no:cacheprovider") $demo > /tmp/demo_$name.$1.txt 2>&1; echo $?); }
 rc_with=$(run_demo with)
-git -C $wt stash -q
+# (git stash is shared between the worktrees of one repository: never use it here)
+git -C $wt checkout -q -- src
 rc_without=$(run_demo without)
-git -C $wt stash pop -q
+git -C $wt apply $out/patch.diff
 echo "demo: with change rc=$rc_with, without rc=$rc_without"
 cd /verif
 /venv/bin/python - "$name" "$prop" "$rc_with" "$rc_without" "$@" <<'EOF'
